@@ -31,4 +31,5 @@ func runC05(r *hk.Run) {
 	runVarintReaders(r, rng.Fork())
 	runH3Frames(r, rng.Fork())
 	runH3Fields(r, rng.Fork())
+	runEncoders(r, rng.Fork())
 }
